@@ -14,7 +14,7 @@
    cannot have a 0-length dimension) although the API is Option-valued; the model returns None
    (the documented 0-row result is not representable). *)
 From Coq Require Import List ZArith NArith Bool.
-From EasyML Require Import Base.Sx Model.Num.
+From EasyML Require Import Base.Sx Model.Num Model.Stats.
 Import ListNotations.
 
 Section Gaussian.
@@ -223,6 +223,12 @@ Definition mv_draw (g : list (list R) * list (list R)) (source : list R) (max_sa
   | (None, rest) => (None, rest)
   end.
 
-(* ---- Gaussian::approximating: mean and variance of the data (linear_algebra::mean / variance,
-   Model/Stats.v) — run through RunC17 with the Stats model ---- *)
+(* ---- Gaussian::approximating (src/distributions.rs:151) ----
+     let mut copy: Vec<T> = data.collect();
+     Gaussian { mean: linear_algebra::mean(copy.iter().cloned()),
+                variance: linear_algebra::variance(copy.drain(..)) }
+   (linear_algebra::mean / variance: Model/Stats.v; both panic on empty data) *)
+Definition approximating (data : list R) : outcome gaussian :=
+  obind (mean ops data) (fun m => omap (fun v => mkGaussian m v) (variance ops data)).
+
 End Gaussian.
